@@ -24,7 +24,7 @@ class C11(Prop):
             "non-trivial = B non-empty or a steered packet present; distinct = (scenario, B)")
     reach = ["steer_fold_10000", "steer_final_ffff", "steer_raw_multiple", "udp_csum_ffff", "ipv6_tcp", "ipv6_udp",
              "ipv4_udp", "odd_length", "one_byte_payload", "padded_frame", "bad_field", "bad_bitflip", "subset_ge_2",
-             "empty_B"]
+             "empty_B", "retransmitted_segment", "tcp_and_udp_between_same_hosts"]
 
     def plan(self, tier):
         p = super().plan(tier)
@@ -35,8 +35,28 @@ class C11(Prop):
     def gen(self, seed, idx, tier):
         R = Rng(seed, "C11")
         cfg = {"records_max": 5, "len_max": 1500, "isn_wrap": False, "seg_pct": 70, "quic_pct": 40,
-               "quic": {"small": True, "steer_csum": True}}
+               "net": {"dup": 60, "dup_rto": 60, "dup_late": 20, "delay": 20, "_D": 3}, "net_pct": 50,
+               "quic": {"small": True, "steer_csum": True, "net": {"dup": 60, "delay": 30, "_D": 2}}}
         spec = gen.gen_mixed_world(R.fork("world"), cfg, nconn=R.range(1, 3), with_noise=True)
+        if R.chance(35):
+            # TCP and UDP between the same pair of hosts (e.g. HTTPS and HTTP/3 to one server)
+            tls = [c for c in spec["conns"] if c["proto"] == "tls"]
+            if tls:
+                a = R.choice(tls)
+                used = set((c["c"]["ip"], c["c"]["port"], c["s"]["ip"], c["s"]["port"]) for c in spec["conns"])
+                k = max(c["id"] for c in spec["conns"]) + 1
+                from .. import quicpeer
+                try:
+                    if R.chance(60):
+                        q = quicpeer.gen_quic_conn(R.fork("samehost"), k, {"small": True, "v6_pct": 100 if a["v6"] else 0}, used,
+                                                   client_ip=a["c"]["ip"], server_ip=a["s"]["ip"])
+                    else:
+                        q = gen.gen_udp_noise(R.fork("samehost"), k, used, v6=a["v6"], client_ip=a["c"]["ip"], server_ip=a["s"]["ip"])
+                    q["c"]["mac"], q["s"]["mac"] = a["c"]["mac"], a["s"]["mac"]
+                    spec["conns"].append(q)
+                    spec["same_host_pair"] = True
+                except (ValueError, RuntimeError):
+                    pass
         spec["prop"] = "C11"
         spec["tier"] = tier
         spec["bseed"] = R.bits(40)
@@ -75,7 +95,16 @@ class C11(Prop):
         idx = [e["i"] for e in tl if "ctl" not in e]
         out = [[]]
         steered = [s[0] for s in spec.get("steer", [])]
-        singles = idx if tier != "quick" else sorted(set(R.sample(idx, min(len(idx), 4)) + steered[:2]))
+        # first copies of segments that are retransmitted later (the copy must take over when the first is bad)
+        firstcopies = []
+        seen = {}
+        for e in tl:
+            if "lo" in e:
+                key = (e["conn"], e["d"], e["lo"], e["hi"])
+                if e.get("dup") and key in seen:
+                    firstcopies.append(seen[key])
+                seen.setdefault(key, e["i"])
+        singles = idx if tier != "quick" else sorted(set(R.sample(idx, min(len(idx), 4)) + steered[:2] + firstcopies[:2]))
         for i in singles:
             out.append([[i, R.choice(["field", "flip"]), R.bits(16) or 1, R.below(4000), R.below(8)]])
         for _ in range(3 if tier == "quick" else 10):
@@ -176,6 +205,10 @@ class C11(Prop):
                         "reach:steer_raw_multiple" if k[0] == "raw_multiple" else "reach:steer_other")))
             if e.get("udp_ffff"):
                 out.count("reach:udp_csum_ffff")
+            if e.get("dup"):
+                out.count("reach:retransmitted_segment")
+        if spec.get("same_host_pair"):
+            out.count("reach:tcp_and_udp_between_same_hosts")
 
 
 PROP = C11()
